@@ -20,12 +20,13 @@ PROP = {
             "C18_rt": "full: filter formulation (the non-whitespace code points of s spell std_encode pad x); C18_rt_inserted is the same with an inductive 'whitespace inserted anywhere' relation",
             "C18_chunks": "full and for every sink: same final sink state (for the recording sink: the same sequence of write calls, not only the same bytes) and the same verdict including the error variant; the protocol is feed each chunk, stop at the first Err, then finish",
             "C18_sink": "full: Decoder (feed+finish), decode_without_base64, decode_with_base64 and both branches of DataUrl::decode; if fewer than k calls happen the run is unchanged",
+            "C18_body_output": "beyond the property text: the fault-free output of decode_without_base64 is exactly body_ref (the body up to '#', TAB/LF/CR dropped, %XY decoded when the two hex digits are contiguous in the text as given), and decode_with_base64 delivers the Infra forgiving-base64 decode of that; this fixes what 'the fault-free output' of the sink clause is",
             "C18_body_b64": "decode_with_base64 = Decoder on the concatenation of decode_without_base64's writes; the slice-index panic branch of the model is proved unreachable",
         },
     }
 
 TEXT = {
-  "level": "Machine-checked Coq theorems (10, all closed under the global context) about an executable Gallina model of data-url's forgiving_base64 (Decoder::new/feed/finish with the u32 bit buffer, `as u8` truncation and the saturating u8 padding counter written out; decode_to_vec) and of the two data: URL body decoders: equality of value and verdict with the Infra Standard's forgiving-base64 decode for every input; decode(standard_encode(x)) = x padded or not with whitespace anywhere; for every sink closure, independence of the final sink state (hence of the sequence of write calls) and of the verdict from the chunking; the sink-failure law (exactly the first k-1 chunks, then the write error) for Decoder, decode_without_base64, decode_with_base64 and DataUrl::decode. BASE64_DECODE_TABLE and the byte lists the code matches on are regenerated from the Rust source on every run and the table theorem re-proved. The model is tied to the code by a correspondence run (exhaustive small scopes + random) of the extracted model against the crate built from /repo.",
+  "level": "Machine-checked Coq theorems (10, all closed under the global context) about an executable Gallina model of data-url's forgiving_base64 (Decoder::new/feed/finish with the u32 bit buffer, `as u8` truncation and the saturating u8 padding counter written out; decode_to_vec) and of the two data: URL body decoders: equality of value and verdict with the Infra Standard's forgiving-base64 decode for every input; decode(standard_encode(x)) = x padded or not with whitespace anywhere; for every sink closure, independence of the final sink state (hence of the sequence of write calls) and of the verdict from the chunking; the sink-failure law (exactly the first k-1 chunks, then the write error) for Decoder, decode_without_base64, decode_with_base64 and DataUrl::decode; the fault-free output of the two body decoders in closed form. BASE64_DECODE_TABLE and the byte lists the code matches on are regenerated from the Rust source on every run and the table theorem re-proved. The model is tied to the code by a correspondence run (exhaustive small scopes + random) of the extracted model against the crate built from /repo.",
   "design_ref": "DESIGN.md section 8 C18, Appendix A.4, B.2, sections 4 and 6",
   "note": "Trusted: Coq kernel + vm_compute; translator gen_tables.py + tables_c18.py; extraction (ExtrOcamlBasic only) + OCaml driver; the correspondence generators; Spec/Infra.v as a transcription of the Infra Standard (validated against all 80 WPT base64.json vectors and an independent Rust transcription). data: URL bodies reach the private body decoders through DataUrl::process, so they are valid UTF-8 without trailing C0/space. No known findings.",
   "technique": "Coq proof over Gallina model + table translator + extracted-model/implementation correspondence",
